@@ -8,7 +8,8 @@ Fault enumeration over generated method sets (plain-class annotations, bodies wi
   injected faults  a BaseException raised from a sys.settrace line hook at the k-th executed line of library /
                    generated code, for every k (thorough) or a Hypothesis-drawn k (quick), during (a) the first-use
                    build, (b) the rebuild after register, (c) a cache-miss resolution with a call_next chain.
-Oracle: after the fault every probe call, through the dispatch function AND the Ovld object, either reproduces the
+Oracle: after the fault every probe call - through the dispatch function, the Ovld object AND f.next(...) called from
+code that is not one of the methods (positional probes) - either reproduces the
 outcome of a FRESH function over the complete set of registered methods or raises a configuration error; for
 one-shot (transient) faults a configuration error is accepted only if the fresh function raises it too.  After the
 offending method is unregistered all probes equal a fresh function over the valid set.
@@ -148,10 +149,27 @@ def registered_ids(prog):
     return [m["id"] for m in prog.methods if id(prog.fns[m["id"]]) in present]
 
 
+def via_of(prog, via_name, p):
+    """the three ways a later call can enter: the dispatch function, the Ovld object, and f.next(...) from code that
+    is not one of the methods (the library then falls back to a fresh lookup) - positional arguments only"""
+    if via_name == "ovld":
+        return prog.ov
+    if via_name == "next":
+        if p["kw"]:
+            return False
+        return getattr(prog.f, "next", None) or False
+    return None
+
+
+VIAS = ("dispatch", "ovld", "next")
+
+
 def check_probes(res, prog, env, probes, expected, label, transient, spec):
     for i, p in enumerate(probes):
-        for via_name in ("dispatch", "ovld"):
-            via = prog.ov if via_name == "ovld" else None
+        for via_name in VIAS:
+            via = via_of(prog, via_name, p)
+            if via is False:
+                continue
             got, out = observe(prog, p, env, via)
             exp = expected[i]
             ok = got == exp or (got[0] == "config" and (not transient or exp[0] == "config"))
@@ -357,8 +375,11 @@ def run_natural(spec):
             # the complete set cannot be built: every probe must raise a configuration error, again and again
             for rnd in range(2):
                 for p in spec["probes"]:
-                    for via_name in ("dispatch", "ovld"):
-                        got, out = observe(prog, p, env, prog.ov if via_name == "ovld" else None)
+                    for via_name in VIAS:
+                        via = via_of(prog, via_name, p)
+                        if via is False:
+                            continue
+                        got, out = observe(prog, p, env, via)
                         if got[0] != "config":
                             res.fail(
                                 f"invalid method ({kind}) registered {'after first use' if spec['after_use'] else 'at position %d' % at}: "
@@ -480,7 +501,7 @@ class Check:
         "resolution with a call_next chain - quick: Hypothesis-drawn k, thorough: EVERY k for 8 method sets x 3 scenarios "
         "x 2 entry points; (ii) five kinds of invalid method at every registration position, before and after first use; "
         "(iii) class_check / __type_order__ / condition hooks raising on their n-th invocation. Afterwards every probe "
-        "through both entry points must equal a fresh function over the registered methods, or be a configuration error. "
+        "through the dispatch function, the Ovld object and f.next(...) from non-method code must equal a fresh function over the registered methods, or be a configuration error. "
         "Non-trivial = the fault struck inside the build / resolution code (or an invalid method / hook fault was "
         "actually hit); distinct by (scenario, file:line) or (fault kind, position, method set)."
     )
